@@ -263,6 +263,9 @@ func funcPkg(fn *ssa.Function) *types.Package {
 	if o := fn.Object(); o != nil {
 		return o.Pkg()
 	}
+	if og := fn.Origin(); og != nil && og != fn {
+		return funcPkg(og) // an instance of a generic function
+	}
 	return nil
 }
 
@@ -294,7 +297,16 @@ func (p *Program) RepoFuncs(pkgs ...string) []*ssa.Function {
 	}
 	var out []*ssa.Function
 	for fn := range ssautil.AllFunctions(p.Prog) {
-		if fn.Synthetic != "" || fn.Blocks == nil {
+		if fn.Blocks == nil {
+			continue
+		}
+		// compiler-made functions (wrappers, thunks, initialisers) are not source functions - but the instances
+		// of a generic function are: they are what runs.  The uninstantiated generic itself is skipped.
+		isInstance := fn.Origin() != nil && fn.Origin() != fn && len(fn.TypeArgs()) > 0
+		if fn.Synthetic != "" && !isInstance {
+			continue
+		}
+		if fn.TypeParams() != nil && fn.TypeParams().Len() > 0 && len(fn.TypeArgs()) == 0 {
 			continue
 		}
 		if !IsRepoFunc(fn) {
